@@ -4,7 +4,7 @@
    forgets the lock ([protocol_ok]), then NO schedule of ANY number of threads running ANY
    programs reaches a state in which two threads are inside the pool and one of them writes.
    Conversely, the pre-fix lock table (mutating methods under a shared lock) and a table in
-   which one method takes no lock both admit a concrete conflicting schedule. *)
+   which one method takes no lock both have a concrete conflicting schedule. *)
 From Coq Require Import List Bool Arith Lia.
 From Morfuse Require Import C20.Model.
 Import ListNotations.
@@ -290,7 +290,7 @@ Proof.
       destruct a as [|a]; simpl in Ha.
       * injection Ha as Hm. subst m0.
         destruct (il_nth l b mb Hb) as (j & rb & Hj).
-        exists 0, (S j), r0, rb. simpl. split; [|split]; try assumption. lia.
+        exists 0, (S j), r0, rb. simpl. split; [lia|split; [reflexivity|assumption]].
       * assert (Hab' : a < b) by lia.
         destruct (IH a b ma mb Hab' Ha Hb) as (i & j & ra & rb & Hij & Hi & Hj).
         exists (S i), (S j), ra, rb. simpl. split; [|split]; try assumption. lia.
